@@ -76,11 +76,25 @@ def h_int24(ctx):
 _FIXED = [(s, e, w) for s in 'US' for e in 'BL' for w in (8, 16, 32, 64)]
 
 
+def _copied(con, how):
+    """the decoder itself, or a copy of it made through the copy / pickle protocol the construct classes implement (__copy__,
+    __getstate__, __setstate__): a copy decodes like the original"""
+    import copy
+    import pickle
+    if how == 'copy':
+        return copy.copy(con)
+    if how == 'deepcopy':
+        return copy.deepcopy(con)
+    if how == 'pickle':
+        return pickle.loads(pickle.dumps(con))
+    return con
+
+
 def h_fixed(ctx):
     s, e, w, n = ctx.cfg['sign'], ctx.cfg['end'], ctx.cfg['bits'], ctx.cfg['n']
     C = ctx.lib('construct')
     EXC = ctx.lib('common.exceptions')
-    con = getattr(C, '%s%sInt%d' % (s, e, w))('x')
+    con = _copied(getattr(C, '%s%sInt%d' % (s, e, w))('x'), ctx.cfg.get('copy'))
     bs = ctx.bytes('b', n)
     st = ctx.stream(bs)
     size = w // 8
@@ -144,7 +158,7 @@ def h_struct_types(ctx):
             import re
             m = re.match(r'Dwarf_(u?)int(\d+)$', cfg['type'])
             size, signed = int(m.group(2)) // 8, not m.group(1)
-    con = getattr(st, cfg['type'])('x')
+    con = _copied(getattr(st, cfg['type'])('x'), cfg.get('copy'))
     bs = ctx.bytes('b', size + 1)
     stream = ctx.stream(bs)
     v = _parse(ctx, con, stream)
@@ -337,7 +351,8 @@ HARNESSES = [
       desc='UBInt24/ULInt24 on n symbolic bytes: one query covers all 2^24 values per byte order',
       bounds={'all': 'inputs of 0..5 bytes, all values'}),
     H('h16_3_fixed', h_fixed,
-      lambda tier: [dict(sign=s, end=e, bits=w, n=n) for (s, e, w) in _FIXED for n in sorted({0, w // 8 - 1, w // 8, w // 8 + 1})],
+      lambda tier: [dict(sign=s, end=e, bits=w, n=n) for (s, e, w) in _FIXED for n in sorted({0, w // 8 - 1, w // 8, w // 8 + 1})] +
+                   [dict(sign=s, end=e, bits=w, n=w // 8, copy=how) for (s, e, w) in _FIXED for how in ('copy', 'deepcopy', 'pickle')],
       expect=('ok', 'parse_error'),
       desc='every {U,S}{B,L}Int{8,16,32,64} macro: value formula, consumption, short input',
       bounds={'all': 'all values; input lengths 0, size-1, size, size+1'}),
